@@ -41,4 +41,35 @@ theorem band_u64_nat (a b : Nat) (ha : a < 2 ^ 64) (hb : b < 2 ^ 64) :
   · exact Int.natCast_nonneg _
   · rw [two_pow_64]; omega
 
+theorem band_u32_nat (a b : Nat) (ha : a < 2 ^ 32) (hb : b < 2 ^ 32) :
+    band (.u 32) (a : Int) (b : Int) = ((a &&& b : Nat) : Int) := by
+  unfold band Ty.bits
+  rw [pat_nat 32 a ha, pat_nat 32 b hb]
+  have hle : a &&& b ≤ a := Nat.and_le_left
+  show wrap (.u 32) ((a &&& b : Nat) : Int) = _
+  apply wrap_u_of_lt
+  · exact Int.natCast_nonneg _
+  · rw [two_pow_32]; omega
+
+/-- Testing one flag bit: `f & 2^k ≠ 0` iff bit `k` of `f` is set. -/
+theorem and_two_pow_ne_zero (f k : Nat) : (f &&& 2 ^ k ≠ 0) ↔ f / 2 ^ k % 2 = 1 := by
+  have h2 := @Nat.testBit_eq_decide_div_mod_eq k f
+  constructor
+  · intro h
+    by_cases ht : f.testBit k
+    · rw [h2] at ht; simpa using ht
+    · exfalso; apply h
+      apply Nat.eq_of_testBit_eq
+      intro j
+      simp only [Nat.testBit_and, Nat.testBit_two_pow, Nat.zero_testBit]
+      by_cases hj : k = j
+      · subst hj; simp [ht]
+      · simp [hj]
+  · intro h hz
+    have : (f &&& 2 ^ k).testBit k = true := by
+      simp only [Nat.testBit_and, Nat.testBit_two_pow]
+      simp [h2, h]
+    rw [hz] at this
+    simp at this
+
 end G
